@@ -15,7 +15,7 @@ NH = 4
 
 
 # ------------------------------------------------------------------------------ sequential validation
-def tlc_validate_seq(module, cfg, events_per_hist, rd, name, timeout=1200, max_rounds=6, heap="3g"):
+def tlc_validate_seq(module, cfg, events_per_hist, rd, name, timeout=1200, max_rounds=6, heap="3g", emit_reset=True):
     """events_per_hist: list of (hist_case, [event,...]) ; each history becomes Reset + events in one of 16 shard traces.
     A rejected trace (POSTCONDITION false) names the line where it got stuck; that history is reported and cut out,
     and the shard is validated again so that the rest is still checked. Returns dict(states, transitions, events, fails)."""
@@ -35,8 +35,9 @@ def tlc_validate_seq(module, cfg, events_per_hist, rd, name, timeout=1200, max_r
             linemap = []
             with open(path, "w") as f:
                 for hi, (case, evs) in enumerate(shards[s]):
-                    f.write(json.dumps({"op": "Reset", "kind": case.get("kind", "ta"), "hid": case.get("id")}, separators=(",", ":")) + "\n")
-                    linemap.append(hi)
+                    if emit_reset:
+                        f.write(json.dumps({"op": "Reset", "kind": case.get("kind", "ta"), "hid": case.get("id")}, separators=(",", ":")) + "\n")
+                        linemap.append(hi)
                     for e in evs:
                         f.write(json.dumps(e, separators=(",", ":")) + "\n")
                         linemap.append(hi)
@@ -71,7 +72,7 @@ def tlc_validate_seq(module, cfg, events_per_hist, rd, name, timeout=1200, max_r
                 case, evs = shards[s][hi]
                 # position inside the history
                 first = linemap.index(hi)
-                pos = ln - 1 - first - 1
+                pos = ln - 1 - first - (1 if emit_reset else 0)
                 ev = evs[pos] if 0 <= pos < len(evs) else {"op": "Reset"}
                 total_events += ln - 1
                 fails.append((case, pos, ev))
